@@ -309,25 +309,40 @@ def rule_structure(repo, rep):
   rep.add(R, 'Constraints._pairs:limit', 'derived' if sl else 'refuted',
           site(f), '' if sl else 'result is not limited to n_constraints')
   g = cons.methods.get('positive_negative_pairs')
-  ok = False
-  for r in ast.walk(g.node):
-    if isinstance(r, ast.Return) and isinstance(r.value, ast.Tuple) and \
-            len(r.value.elts) == 4:
-      conds = astutil.path_condition(g.node, r)
-      if 'same_length' in conds:
-        uppers = set()
-        for e in r.value.elts:
-          if isinstance(e, ast.Subscript) and isinstance(e.slice, ast.Slice) \
-                  and e.slice.lower is None and e.slice.upper is not None:
-            uppers.add(ast.unparse(e.slice.upper))
-          else:
-            uppers.add('?' + ast.unparse(e))
-        if len(uppers) == 1 and not next(iter(uppers)).startswith('?'):
-          ok = True
+  # with same_length=True every return hands out four arrays of one length:
+  # all four cut at one common bound, or untouched on a path where the two
+  # kinds are already equally many
+  ok, why = True, ''
+  n_ret = 0
+  for (r, conds) in astutil.return_paths(g.node.body, {'same_length': True}):
+    if r is None or not (isinstance(r.value, ast.Tuple) and
+                         len(r.value.elts) == 4):
+      ok, why = False, 'a path does not return the four index arrays'
+      continue
+    n_ret += 1
+    uppers = set()
+    for e in r.value.elts:
+      if isinstance(e, ast.Subscript) and isinstance(e.slice, ast.Slice) \
+              and e.slice.lower is None and e.slice.upper is not None:
+        uppers.add(ast.unparse(e.slice.upper))
+      else:
+        uppers.add('?' + ast.unparse(e))
+    cut = len(uppers) == 1 and not next(iter(uppers)).startswith('?')
+    names = [ast.unparse(e) for e in r.value.elts]
+    equal = any((t in ('len(%s) != len(%s)' % (names[0], names[2]),
+                       'len(%s) != len(%s)' % (names[2], names[0])) and
+                 not pol) or
+                (t in ('len(%s) == len(%s)' % (names[0], names[2]),
+                       'len(%s) == len(%s)' % (names[2], names[0])) and pol)
+                for (t, pol) in conds)
+    if not (cut or equal):
+      ok = False
+      why = 'under same_length a path returns %s (conditions %s): not cut ' \
+            'to one common length' % (ast.unparse(r.value), conds)
+  if n_ret == 0:
+    ok, why = False, 'no return of four arrays found'
   rep.add(R, 'Constraints.positive_negative_pairs:same_length',
-          'derived' if ok else 'refuted', site(g),
-          '' if ok else 'same_length does not truncate all four arrays to '
-          'one common length')
+          'derived' if ok else 'refuted', site(g), why)
 
 
 def check(repo, rep, tier):
